@@ -51,6 +51,9 @@ class Ctx:
         self.reset()
 
     def reset(self) -> None:
+        if getattr(self, "deferred", None):
+            run_finalizers()  # generators abandoned by the previous execution
+        self.deferred: List[Any] = []  # async generators handed to the finaliser hook, not yet closed
         self.log: List[tuple] = []
         self.seq = 0
         self.emitted: Optional[Token] = None  # token emitted during the current step
@@ -138,18 +141,30 @@ def _firstiter(agen: Any) -> None:
 
 
 def _finalizer(agen: Any) -> None:
-    # A real loop schedules ``agen.aclose()``; we run it to completion right here.
-    name = getattr(agen, "__qualname__", repr(agen))
-    CTX.agen_finalized.append(name)
-    try:
-        drive(agen.aclose())
-    except RuntimeError as exc:
-        # CPython leaves a generator marked "running" when GeneratorExit was thrown through one of its
-        # pending asend() awaitables; nothing can be closed then and it says nothing about the library
-        if "already running" not in str(exc):
+    # A real loop only *schedules* ``agen.aclose()`` for a later iteration.  We do the same: the generator is
+    # parked and closed by ``run_finalizers()`` (next execution, or when a scenario lets "time pass").  Closing
+    # it right here would hide leaks behind CPython's reference counting (C04/C18: no GC grace).
+    CTX.deferred.append(agen)
+
+
+def run_finalizers() -> int:
+    """Close the async generators the garbage collector handed to the finaliser hook."""
+    done = 0
+    while CTX.deferred:
+        agen = CTX.deferred.pop()
+        name = getattr(agen, "__qualname__", repr(agen))
+        CTX.agen_finalized.append(name)
+        done += 1
+        try:
+            drive(agen.aclose())
+        except RuntimeError as exc:
+            # CPython leaves a generator marked "running" when GeneratorExit was thrown through one of its
+            # pending asend() awaitables; nothing can be closed then and it says nothing about the library
+            if "already running" not in str(exc):
+                CTX.foreign.append(f"finalizer of {name} raised {type(exc).__name__}: {exc}")
+        except BaseException as exc:  # noqa: BLE001 - diagnostics only
             CTX.foreign.append(f"finalizer of {name} raised {type(exc).__name__}: {exc}")
-    except BaseException as exc:  # noqa: BLE001 - diagnostics only
-        CTX.foreign.append(f"finalizer of {name} raised {type(exc).__name__}: {exc}")
+    return done
 
 
 def install_hooks() -> None:
